@@ -191,6 +191,9 @@ def gen(tier, seed, sp_factory=None):
     for sh in IRREFLEXIVE_SHAPES:
         mods.append(emit(build(sh, 'PartialEq', False), f'm{len(mods):04d}', f'{S.shape_id(sh)}/carrier=PartialEq/irreflexive field', irreflexive=True))
     mods += special_modules(len(mods))
+    from .runner import empty_enum_module
+    for el, b in [('PartialEq', 'PartialEq'), ('PartialEq, Eq', 'PartialEq + Eq')]:
+        mods.append(empty_enum_module(f'm{len(mods):04d}', el, b, FUNCTIONS))
     return mods
 
 
